@@ -146,6 +146,7 @@ def shapes(tier):
     out = [
         ("data3d", {"n": 2, "tracks": 1, "fmt": 1, "links": 1, "lab": [2]}),
         ("data3d", {"n": 1, "tracks": 2, "fmt": 2, "lab": [0, 40 if q else 255]}),
+        ("data3d", {"n": 1, "tracks": 1, "fmt": 1, "links": 0, "lab": [2]}),  # link table present but empty
         ("emg", {"n": 2, "signals": 2, "lab": [2, 0]}),
         ("force3d", {"n": 2, "tracks": 1, "lab": [3]}),
         ("fpdata", {"n": 2, "plats": 2}),
